@@ -348,7 +348,12 @@ impl Receiver {
             match fdt_receiver.state() {
                 fdtreceiver::FDTState::Receiving => return Ok(()),
                 fdtreceiver::FDTState::Complete => {}
-                fdtreceiver::FDTState::Error => return Err(FluteError::new("Fail to decode FDT")),
+                fdtreceiver::FDTState::Error => {
+                    // Do not keep the failed instance: the next packet with this FDT Instance ID
+                    // starts a new reception instead of being ignored until the next cleanup
+                    self.fdt_receivers.remove(&fdt_instance_id);
+                    return Err(FluteError::new("Fail to decode FDT"));
+                }
                 fdtreceiver::FDTState::Expired => {
                     let expiration = fdt_receiver.get_expiration_time().unwrap_or(now);
                     let server_time = fdt_receiver.get_server_time(now);
@@ -362,6 +367,8 @@ impl Receiver {
                         expiration.to_rfc3339(),
                         server_time.to_rfc3339()
                     );
+                    // Same for an instance that was already expired when it completed
+                    self.fdt_receivers.remove(&fdt_instance_id);
                     return Ok(());
                 }
             };
